@@ -381,9 +381,14 @@ def parseHeader (line : Str) : Except Err (Str × List (Str × Str)) :=
       -- plain parameters: '"%s"' % quote(v), then collapse_rfc2231_value = unquote
       let d0 : List (Str × Str) :=
         g.plain.foldl (fun d (n, v) => dset n (emailUnquote ([34] ++ emailQuote v ++ [34])) d) []
-      match g.ext.foldlM (fun d (n, conts) => (rfc2231Value conts).map (fun v => dset n v d)) d0 with
-      | .error e => .error e
-      | .ok d => .ok (key, d)
+      -- decode_params sorts every continuation list (TypeError on a None/int mix) before `_parse_header`
+      -- decodes any charset
+      if g.ext.any (fun (_, conts) => conts.any (fun c => c.1.isNone) && conts.any (fun c => c.1.isSome)) then
+        .error (.uncaught "TypeError")
+      else
+        match g.ext.foldlM (fun d (n, conts) => (rfc2231Value conts).map (fun v => dset n v d)) d0 with
+        | .error e => .error e
+        | .ok d => .ok (key, d)
 
 /-! ### `_encode_header` -/
 
